@@ -83,7 +83,7 @@ func c07enumeration(tier string) []c07enum {
 func (c07) Runs(tier string) int64 {
 	n := int64(len(c07enumeration(tier)))
 	if tier == "thorough" {
-		return n + 3000000
+		return n + 12000000
 	}
 	return n + 40000
 }
